@@ -5554,9 +5554,9 @@ class Arc(Curve):
         self.prx.matrix_transform(rotate_matrix)
         self.pry.matrix_transform(rotate_matrix)
         self.sweep = Angle.degrees(delta).as_radians
-        for value in (center.x, center.y, self.prx.x, self.prx.y, self.pry.x, self.pry.y, self.sweep):
+        for value in (center.x, center.y, self.prx.x, self.prx.y, self.pry.x, self.pry.y, self.sweep, rx * rx, ry * ry):
             if value != value or value in (float("inf"), float("-inf")):
-                # The squares of the coordinates overflowed: the arc has no finite centre form.
+                # The centre form (or the square of a radius, which every evaluation needs) is not finite.
                 raise ValueError("Arc parameters are out of range.")
 
     def as_quad_curves(self, arc_required=None):
